@@ -51,6 +51,31 @@ REG = {
         "default AND gate logic only; stub agents spend energy like BioAgent and are bound by 7 real-agent scenarios; "
         "clock owned through the module-global datetime/time names of loops.py",
     ),
+    "C10": (
+        "bounded-exhaustive input enumeration from automatically derived signature witnesses x perturbations (engine D) "
+        "+ explicit-state BFS over membrane histories under a virtual clock (engine A)",
+        "Witness strings are derived from the re-parser tree of every built-in / custom / learned / imported signature of "
+        "both gates (every alternation branch, minimal and doubled repetitions) and run under every case/embedding/"
+        "control-character perturbation, every threshold, all shipped validators and ~85 hostile inputs (lone surrogates, "
+        "100k+ lengths, 50k-deep JSON, 5000-digit numbers) against an independent reference matcher that is cross-checked "
+        "with re.search; filter/learn/forget/add/set_threshold/export-import/clock-advance histories of two membranes are "
+        "explored to depth 5 (quick) / 7 (thorough) against a reference of active signatures, blocked inputs and the "
+        "rate window (stay-blocked-forever, rate limit per window, audit +1 per decision, no raise).",
+        "characters with non-1:1 case folds are don't-care; truncated-sha256 replay-memory collisions not explorable; "
+        "regex back-tracking latency is an observation, not a verdict",
+    ),
+    "C12": (
+        "bounded-exhaustive enumeration of templates x contexts against an independent single-pass reference renderer (engine D)",
+        "Every template of <=3 (quick) / <=4 (thorough) segments over the documented grammar (up to 88 segment kinds: plain/"
+        "optional/defaulted/filtered variables, if/else, each-loops with item/index/first/last/dict keys, includes to depth "
+        "3, unknown includes) x 11 value classes x strict/non-strict is rendered by the real Ribosome and compared with a "
+        "recursive-descent single-pass renderer written from the statement (phase 1: delimiter-free values; phase 2: "
+        "every bound value / loop item / dict field / default replaced by each active payload, opacity oracle). "
+        "Re-interpretation through a channel that is clean today (simple variables, cross-segment) is a plain violation; "
+        "the 25 channel x construct pairs that the multi-pass design re-interprets are listed as known findings.",
+        "nested blocks and includes inside blocks are outside the quantifier's grammar; text emitted for an unbound plain "
+        "variable is not judged",
+    ),
 }
 
 PENDING_REASON = "check not built yet in this session (design in DESIGN.md section 4); will be claimed once its check runs clean"
